@@ -1,5 +1,5 @@
 import PyYetiVerif.Lemmas.Op4VariantsAsciiLoop
-import PyYetiVerif.Props.C04
+import PyYetiVerif.Lemmas.Op4AsciiPuts
 /-!
 # C11 (continued) — ASCII OUTPUT4: skipping = reading, listings = reads, named subset = filter
 
@@ -11,7 +11,7 @@ read-only): `rdMatrixA` / `rdFileA` / `loadAscii` transcribe `_loadop4_ascii` wi
 The theorems here involve NO encoder: they hold on **every** text on which the reader model succeeds — E or D
 exponents, any announced `nEw.d`, with or without `1P,`, `|I16` headers, any partition of the columns into
 strings, files written by Nastran, by pyYeti or by anything else.  (That the reader succeeds on every file
-pyYeti's writer produces is C04's `file_roundtrip_ascii`; `dir_matches_load_ascii_written` combines the two.)
+pyYeti's writer produces is C04's `file_roundtrip_ascii` = `Op4A.loadAscii_enc`; `dir_matches_load_ascii_written` combines the two.)
 -/
 namespace PyYetiVerif.C11
 open PyYetiVerif.Op4 (Layout Mat checkName)
@@ -67,7 +67,11 @@ theorem dir_matches_load_ascii_written (d : Nat) (hd : 1 ≤ d) (hd' : d ≤ 73)
     (hok : ∀ p ∈ ms, PyYetiVerif.Op4A.MatOK d p) :
     ∃ ds, loadAscii (PyYetiVerif.Op4.encFileAscii d ms) = some ds ∧
       dirAscii (PyYetiVerif.Op4.encFileAscii d ms) = some (ds.map listingA) := by
-  obtain ⟨ds, h, _⟩ := PyYetiVerif.C04.file_roundtrip_ascii d hd hd' ms hne hok
+  have hp : 1 ≤ PyYetiVerif.Op4.perline d := by
+    unfold PyYetiVerif.Op4.perline PyYetiVerif.Op4.numlen PyYetiVerif.Generated.Op4Consts.numlenBase PyYetiVerif.Op4.expdigits
+      PyYetiVerif.Generated.Op4Consts.lineWidth
+    exact (Nat.le_div_iff_mul_le (by omega)).2 (by omega)
+  obtain ⟨ds, h, _⟩ := PyYetiVerif.Op4A.loadAscii_enc d hd hp ms hne hok
   exact ⟨ds, h, dir_matches_load_ascii _ ds h⟩
 
 /-! ### non-vacuity: a two-matrix text (D exponents; dense, then bigmat with two strings and a negative row count) on which the
